@@ -25,7 +25,11 @@ RULE_LOCAL = ("strings are enumerated once each by the L1 odometer (all token st
 check('C02', level='model_checking', steps=[dict(src='drv/local.c', variant='plain', defs=[], name='local-ascii')],
       rule=RULE_LOCAL, deadline=dict(quick=240, thorough=3000),
       mc_keys=dict(states='ref_states', transitions='ref_transitions'))
-check('C03', level='model_checking', steps=[dict(src='drv/local.c', variant='plain', defs=['-DC03'], name='local-6531')],
+import c20cli
+check('C03', level='model_checking', steps=[dict(src='drv/local.c', variant='plain', defs=['-DC03'], name='local-6531'),
+                                             # the shipped tool links its own copy of the UTF-8 decoder (bin/utf8_decode.c) in front of the library's: mode 6531 as a user of
+                                             # bin/eav gets it is decided there - the UTF-8 strictness files of C20 plus every lead x second byte and all range edges
+                                             dict(kind='py', name='cli-decoder', fn=c20cli.run_utf8, replay=c20cli.replay)],
       rule=RULE_LOCAL, deadline=dict(quick=240, thorough=3000),
       mc_keys=dict(states='ref_states', transitions='ref_transitions'))
 
@@ -151,7 +155,10 @@ RULE_CORPUS = ("the nine corpora of drv/corpus.h, each a complete enumeration of
 check('C12', level='exploration', steps=[dict(src='drv/sinks.c', variant='plain', defs=['-DSINK=12'], name='cross-mode')],
       rule=RULE_CORPUS + "; C12 counts only pure-ASCII addresses without quote/backslash in the local part as non-trivial", deadline=dict(quick=300, thorough=3000))
 check('C16', level='exploration', steps=[dict(src='drv/sinks.c', variant='plain', defs=['-DSINK=16'], name='result-record'),
-                                           dict(src='drv/sinks.c', variant='extra', defs=['-DSINK=16'], name='result-record-EAV_EXTRA')],
+                                           dict(src='drv/sinks.c', variant='extra', defs=['-DSINK=16'], name='result-record-EAV_EXTRA'),
+                                           # the EAV_EXTRA blocks exist once per back end: the same invariants on the idn and idnkit builds (stub IDN API of drv/shim.c, poisoned malloc)
+                                           dict(src='drv/sinks.c', variant='idn-extra', defs=['-DSINK=16'], name='result-record-EAV_EXTRA-idn', extra_src=['drv/shim.c'], ldflags=[SHIMWRAP]),
+                                           dict(src='drv/sinks.c', variant='idnkit-extra', defs=['-DSINK=16'], name='result-record-EAV_EXTRA-idnkit', extra_src=['drv/shim.c'], ldflags=[SHIMWRAP])],
       rule=RULE_CORPUS, deadline=dict(quick=300, thorough=3000))
 check('C15', level='exploration', steps=[dict(src='drv/sinks.c', variant='plain', defs=['-DSINK=15'], name='diagnostics'),
                                            dict(builder=build_hist, name='hist-c15', prop='C15', backends=['idn2', 'idn', 'idnkit'])],
@@ -165,7 +172,12 @@ def build_c17(bdir, step):
     step['args'] = args
     return exe
 import c17make
-check('C17', level='exploration', steps=[dict(builder=build_c17, name='options'), dict(kind='py', name='makefile', fn=c17make.run)],
+check('C17', level='exploration', steps=[dict(builder=build_c17, name='options'), dict(kind='py', name='makefile', fn=c17make.run),
+                                           # the option builds against the reference automaton WITH the option (C03's product, W-method suite and token strings): every byte in
+                                           # every state of the scanner as that build compiles it
+                                           dict(src='drv/local.c', variant='opt1', defs=['-DC03', '-DREF_OPTS=1'], name='dfa-RFC5322-build', args=['--core']),
+                                           dict(src='drv/local.c', variant='opt2', defs=['-DC03', '-DREF_OPTS=2'], name='dfa-RFC20-build', args=['--core']),
+                                           dict(src='drv/local.c', variant='opt3', defs=['-DC03', '-DREF_OPTS=3'], name='dfa-RFC5322+RFC20-build', args=['--core'])],
       rule=RULE_CORPUS + "; every address is run through the 8 option builds side by side; non-trivial = addresses that can trigger an option (an RFC 20 character, '_' in a host name, control/whitespace in the local part)",
       deadline=dict(quick=300, thorough=3000))
 
